@@ -77,6 +77,8 @@ var scanRules = map[string]scanRule{
 		return []*report.RuleResult{l, k}
 	},
 	"comment-kind":     func(a *scandfa.Analysis) []*report.RuleResult { return []*report.RuleResult{a.CommentKind()} },
+	"byte-siblings":    func(a *scandfa.Analysis) []*report.RuleResult { return []*report.RuleResult{a.ByteSiblings()} },
+	"crlf-unit":        func(a *scandfa.Analysis) []*report.RuleResult { return []*report.RuleResult{a.CrlfUnit()} },
 	"progress":         func(a *scandfa.Analysis) []*report.RuleResult { return []*report.RuleResult{a.Progress()} },
 }
 
